@@ -6,7 +6,7 @@ D=$(mktemp -d /tmp/suite.XXXXXX)
 cd "$R" || exit 2
 PYTHONPATH="$R/src" /venv/bin/python -c "from scenic.syntax import buildParser; r=buildParser(); raise SystemExit(r.returncode)" || { echo "parser generation failed"; exit 2; }
 find tests -name 'test_*.py' | sort > $D/files
-cat $D/files | PYTHONPATH="$R/src" xargs -P 14 -I{} sh -c \
+cat $D/files | PYTHONPATH="$R/src" xargs -P ${SUITE_JOBS:-14} -I{} sh -c \
   'f={}; o='$D'/$(echo $f | tr / _).xml; /venv/bin/python -m pytest -q -p no:cacheprovider --timeout=900 --continue-on-collection-errors --skip-pegen --junitxml=$o $f >$o.log 2>&1'
 /venv/bin/python - $D <<'PY'
 import json, sys, glob, xml.etree.ElementTree as ET
